@@ -169,6 +169,51 @@ fn command_search(ctx: &Ctx) -> (u64, u64) {
     (n, nontrivial)
 }
 
+/// Loops whose body behaves differently from one iteration to the next (`if tick w K; then A;
+/// else B; fi`): the status a loop reports, and what runs after it, depend on how the *last*
+/// iteration ended, whatever earlier iterations did.
+fn varying_loop_bodies() -> Vec<Cmd> {
+    let p = |st: i32| Cmd::P { label: 0, st };
+    let bx = |c: Cmd| Box::new(c);
+    let ends: Vec<Cmd> = vec![
+        Cmd::S(5),
+        Cmd::S(0),
+        p(3),
+        Cmd::Continue(None),
+        Cmd::Break(None),
+        Cmd::Seq(vec![Cmd::S(7), Cmd::Continue(None)]),
+        Cmd::Seq(vec![Cmd::S(7), Cmd::Break(None)]),
+        Cmd::Seq(vec![p(4), Cmd::Continue(None), p(0)]),
+        Cmd::Return(Some(6)),
+    ];
+    let mut out = vec![];
+    for a in &ends {
+        for b in &ends {
+            if a == b {
+                continue;
+            }
+            for k in [1u32, 2] {
+                let body = Cmd::If { cond: bx(Cmd::Tick { id: 0, n: k }), then: bx(a.clone()), elifs: vec![], els: Some(bx(b.clone())) };
+                let uses_return = matches!(a, Cmd::Return(_)) || matches!(b, Cmd::Return(_));
+                for until in [false, true] {
+                    let lp = Cmd::Loop { until, id: 0, n: 3, pre: vec![], body: bx(body.clone()) };
+                    let prog = if uses_return {
+                        Cmd::Seq(vec![Cmd::FuncDef { name: 0, body: bx(Cmd::Group(bx(Cmd::Seq(vec![lp.clone(), p(0)])))) }, Cmd::Call(0), p(0)])
+                    } else {
+                        Cmd::Seq(vec![lp.clone(), p(0), Cmd::AndOr(bx(lp.clone()), vec![(true, p(0)), (false, p(0))])])
+                    };
+                    out.push(prog);
+                }
+                // the same body in a for loop
+                if !uses_return {
+                    out.push(Cmd::Seq(vec![Cmd::For { id: 0, items: 3, body: bx(body.clone()) }, p(0)]));
+                }
+            }
+        }
+    }
+    out
+}
+
 pub fn replay(case: &serde_json::Value) -> i32 {
     let script = case["script"].as_str().unwrap();
     let r = run_once(&Setup::script(script), &Default::default());
@@ -180,6 +225,7 @@ pub fn run(tier: Tier) -> i32 {
     let ctx = Ctx::new("C02", "exploration", tier);
     let n = tier.pick(4, 5);
     let mut progs = progs::programs(n);
+    progs.extend(varying_loop_bodies());
     for p in progs.iter_mut() {
         refsh::relabel(p);
     }
